@@ -154,9 +154,15 @@ class PubSubRun:
         hs = None
         if proto != "v1" and ch.flag("con.hdr_src", 1, 8):
             hs = ch.choose("con.hdr_src.v", [0, 9, 90])     # the CONNECT_V2 request is in the payload, not the header
+        odd = None
+        if not logger and ch.flag("con.oddstatus", 1, 8):
+            # only the value 1 in the logger field makes a logger
+            odd = ch.choose("con.oddstatus.v", [2, -1, 256, 257])
+            self.res.probes["odd_logger_status"] += 1
         a.handshake(proto, req_id=rid, logger=logger, allow_multiple=multi, name=nm,
-                    pid=5000 + len(self.actors), hdr_src=hs)
-        self.t(f"{a.name} connect proto={proto} id={rid} logger={logger} multi={multi} name={nm!r}")
+                    pid=5000 + len(self.actors), hdr_src=hs, logger_status=odd)
+        self.t(f"{a.name} connect proto={proto} id={rid} logger={logger} multi={multi} name={nm!r}"
+               + (f" logger_status={odd}" if odd is not None else ""))
 
     def pick_type(self, label):
         ch = self.ch
